@@ -136,6 +136,30 @@ def gen_case(rng: random.Random, zero_p=0.08):
     return Case(projects, budget, "app", ballots, seed=sub)
 
 
+def gen_overbudget_case(rng: random.Random):
+    """one or two projects that cost MORE than the whole budget limit, approved by several voters who pay little or nothing, next to
+    cheap projects paid by few voters (a large common voter budget): the unselected dear projects are where the leftover conditions
+    (C5) / (S5) bite although no allocation can ever hold them"""
+    sub = rng.getrandbits(48)
+    r = random.Random(sub)
+    n = r.choice([2, 3, 3, 4, 4])
+    budget = F(r.choice([1, 2, 3, 3, 4]))
+    k_cheap = r.choice([1, 1, 2])
+    k_dear = r.choice([1, 1, 2]) if k_cheap == 1 else 1
+    names = r.sample(core.NAME_POOL, k_cheap + k_dear)
+    cheap, dear = names[:k_cheap], names[k_cheap:]
+    projects = [(nm, F(r.randint(1, int(budget)))) for nm in cheap] + [(nm, budget + r.choice([1, 1, 2, 3])) for nm in dear]
+    ballots = []
+    for i in range(n):
+        b = [nm for nm in dear if r.random() < 0.7]
+        if i == 0 or r.random() < 0.25:
+            b += [nm for nm in cheap if r.random() < 0.8] or [cheap[0]]
+        if r.random() < 0.15:
+            b = []
+        ballots.append(sorted(set(b)))
+    return Case(projects, budget, "app", ballots, seed=sub)
+
+
 def subsets(names):
     for k in range(len(names) + 1):
         for W in itertools.combinations(names, k):
@@ -711,12 +735,13 @@ def mip_violation(case: Case, ans, stable, exhaustive, searched):
     return max(viol)
 
 
-def search_part(ctx, box, n_elections, modes_cap=None):
+def search_part(ctx, box, n_elections, modes_cap=None, gen=None):
     rng = ctx.rng
+    gen = gen or gen_case
     for _ in range(n_elections):
         if ctx.budget_s is not None and ctx.elapsed() > ctx.budget_s:
             break
-        case = gen_case(rng)
+        case = gen(rng)
         names = case.names
         jobs = []
         for W in subsets(names):
@@ -1253,6 +1278,7 @@ def run(ctx):
         search_part(ctx, box, ctx.scale(120, 1500), modes_cap=ctx.scale(40, None))
         mes_part(ctx, box, ctx.scale(300, 3000))
         relax_part(ctx, box, ctx.scale(70, 600), searched_every=ctx.scale(3, 2))
+        search_part(ctx, box, ctx.scale(80, 800), modes_cap=ctx.scale(40, None), gen=gen_overbudget_case)  # round 6 (drawn last)
     finally:
         settle_suspects(ctx)
         ctx.extra["solver_fault_kinds"] = dict(box.fault_kinds)
@@ -1310,6 +1336,14 @@ def search(ctx, disagreements):
     lines = []
     validator_part(ctx, 400, lines)
     straddle_part(ctx, 200, [], [])
+    # the search itself (a program that differs from the proved one is looked for where it decides a verdict)
+    box = solverbox.Box()
+    try:
+        search_part(ctx, box, 250, modes_cap=40)
+        search_part(ctx, box, 250, modes_cap=40, gen=gen_overbudget_case)
+    finally:
+        settle_suspects(ctx)
+        box.close()
 
 
 def replay(payload):
